@@ -1,2 +1,254 @@
+//! C06 — Blind BBS soundness (form A, deviation bound 1; thorough bound 2 on structural edits):
+//! (a) the signer refuses every damaged commitment-with-proof, (b) blind signatures and (c) blind proofs are bound to
+//! exactly the statement they were produced for.
+#![allow(non_snake_case)]
+use crate::c02::{header_edits, message_list_edits};
 use crate::common::*;
-pub fn run(_env: &Env) {}
+use crate::edits::*;
+use bls12_381_plus::Scalar;
+use mccore::{par_for, O};
+use refbbs::Suite;
+use serde_json::json;
+
+// ---------------- (b) blind signature statement
+#[derive(Clone, PartialEq, Eq)]
+struct Bs { suite: Suite, pk: Vec<u8>, sig: Vec<u8>, header: Vec<u8>, msgs: Vec<Vec<u8>>, cmsgs: Vec<Vec<u8>>, blind: [u8; 32], blind_none: bool, plain_iface: bool }
+impl Bs {
+    fn key(&self) -> Vec<u8> {
+        let mut k = vec![self.suite as u8, self.blind_none as u8, self.plain_iface as u8];
+        k.extend_from_slice(&self.pk); k.extend_from_slice(&self.sig); k.extend_from_slice(&self.blind);
+        k.extend_from_slice(&msgs_digest(&[self.header.clone()])); k.extend_from_slice(&msgs_digest(&self.msgs)); k.extend_from_slice(&msgs_digest(&self.cmsgs));
+        k
+    }
+    fn stmt_eq(&self, o: &Bs) -> bool {
+        self.suite == o.suite && self.pk == o.pk && self.sig == o.sig && self.header == o.header && self.msgs == o.msgs && self.cmsgs == o.cmsgs && self.blind == o.blind && self.plain_iface == o.plain_iface
+    }
+    fn verify_impl(&self) -> O<()> {
+        if self.plain_iface { return z(self.suite).verify(&self.pk, &self.sig, Some(&self.header), Some(&self.msgs)); }
+        let b = if self.blind_none && self.blind == [0u8; 32] { None } else { Some(&self.blind) };
+        z(self.suite).verify_blind_sign(&self.pk, &self.sig, Some(&self.header), Some(&self.msgs), Some(&self.cmsgs), b)
+    }
+    fn verify_ref(&self) -> Result<(), String> {
+        if self.plain_iface { return refbbs::verify(self.suite, &self.pk, &self.sig, &self.header, &self.msgs); }
+        let b = refbbs::octets_to_scalar_strict(&self.blind)?;
+        refbbs::verify_blind_sign(self.suite, &self.pk, &self.sig, &self.header, &self.msgs, &self.cmsgs, &b)
+    }
+}
+
+// ---------------- (c) blind proof statement
+#[derive(Clone, PartialEq, Eq)]
+struct Bp { suite: Suite, pk: Vec<u8>, proof: Vec<u8>, header: Vec<u8>, ph: Vec<u8>, l: usize, dmsgs: Vec<Vec<u8>>, dcmsgs: Vec<Vec<u8>>, idx: Vec<usize>, cidx: Vec<usize>, plain_iface: bool }
+impl Bp {
+    fn key(&self) -> Vec<u8> {
+        let mut k = vec![self.suite as u8, self.plain_iface as u8];
+        k.extend_from_slice(&self.pk); k.extend_from_slice(&(self.l as u64).to_be_bytes());
+        k.extend_from_slice(&msgs_digest(&[self.proof.clone(), self.header.clone(), self.ph.clone()]));
+        k.extend_from_slice(&msgs_digest(&self.dmsgs)); k.extend_from_slice(&msgs_digest(&self.dcmsgs));
+        for i in &self.idx { k.extend_from_slice(&(*i as u64).to_be_bytes()); }
+        k.push(0xfe);
+        for i in &self.cidx { k.extend_from_slice(&(*i as u64).to_be_bytes()); }
+        k
+    }
+    fn in_contract(&self) -> bool { self.idx.windows(2).all(|w| w[0] < w[1]) && self.cidx.windows(2).all(|w| w[0] < w[1]) }
+    fn verify_impl(&self) -> O<()> {
+        if self.plain_iface {
+            let all: Vec<Vec<u8>> = self.dmsgs.iter().chain(self.dcmsgs.iter()).cloned().collect();
+            let ai: Vec<usize> = self.idx.iter().copied().chain(self.cidx.iter().map(|j| j.wrapping_add(self.l).wrapping_add(1))).collect();
+            return z(self.suite).proof_verify(&self.pk, &self.proof, Some(&self.header), Some(&self.ph), Some(&all), Some(&ai));
+        }
+        z(self.suite).blind_proof_verify(&self.pk, &self.proof, Some(&self.header), Some(&self.ph), Some(self.l), Some(&self.dmsgs), Some(&self.dcmsgs), Some(&self.idx), Some(&self.cidx))
+    }
+    fn verify_ref(&self) -> Result<(), String> {
+        if self.plain_iface {
+            let all: Vec<Vec<u8>> = self.dmsgs.iter().chain(self.dcmsgs.iter()).cloned().collect();
+            let ai: Vec<usize> = self.idx.iter().copied().chain(self.cidx.iter().map(|j| j.wrapping_add(self.l).wrapping_add(1))).collect();
+            return refbbs::proof_verify(self.suite, &self.pk, &self.proof, &self.header, &self.ph, &all, &ai);
+        }
+        refbbs::blind_proof_verify(self.suite, &self.pk, &self.proof, &self.header, &self.ph, self.l, &self.dmsgs, &self.dcmsgs, &self.idx, &self.cidx)
+    }
+}
+
+fn sc_add(b: &[u8; 32], d: i64) -> [u8; 32] {
+    let s = refbbs::octets_to_scalar_strict(b).unwrap();
+    let r = if d >= 0 { s + Scalar::from(d as u64) } else { s - Scalar::from((-d) as u64) };
+    r.to_be_bytes()
+}
+
+#[derive(Clone)]
+enum Part { Commitment, BlindSig, BlindProof { flips: (usize, usize) } }
+struct Root { id: String, suite: Suite, l: usize, m: usize, hn: String, header: Option<Vec<u8>>, part: Part }
+
+pub fn run(env: &Env) {
+    let seed = env.ctx.seed;
+    let bound = if env.thorough() { 2 } else { 1 };
+    let hs = hdr_small(seed);
+    let mut roots = Vec::new();
+    for s in suites() {
+        for m in 0..=2usize {
+            roots.push(Root { id: format!("{}/commitment/M{}", s.name(), m), suite: s, l: 1, m, hn: "16B".into(), header: hs[2].1.clone(), part: Part::Commitment });
+        }
+        let shapes: Vec<(usize, usize)> = if env.thorough() { vec![(0, 0), (0, 1), (1, 0), (1, 1), (2, 1), (1, 2), (2, 2), (3, 2)] } else { vec![(0, 0), (0, 1), (1, 0), (1, 1), (2, 2)] };
+        for (l, m) in shapes {
+            for (hn, h) in [hs[0].clone(), hs[2].clone()] {
+                roots.push(Root { id: format!("{}/blind-signature/L{}/M{}/h={}", s.name(), l, m, hn), suite: s, l, m, hn: hn.clone(), header: h.clone(), part: Part::BlindSig });
+                roots.push(Root { id: format!("{}/blind-proof/L{}/M{}/h={}/structural", s.name(), l, m, hn), suite: s, l, m, hn: hn.clone(), header: h.clone(), part: Part::BlindProof { flips: (0, 0) } });
+                // all proof bit flips: quick on the (1,1) and (2,2) shapes with header, thorough on every shape
+                if env.thorough() || (hn == "16B" && ((l, m) == (1, 1) || (l, m) == (2, 2))) {
+                    let nbits = (272 + 32 * (l + m + 1 - (l.min(1) + m.min(1)))) * 8;
+                    let mut a = 0;
+                    while a < nbits { roots.push(Root { id: format!("{}/blind-proof/L{}/M{}/h={}/flips{}", s.name(), l, m, hn, a), suite: s, l, m, hn: hn.clone(), header: h.clone(), part: Part::BlindProof { flips: (a, (a + 384).min(nbits)) } }); a += 384; }
+                }
+            }
+        }
+    }
+    env.ctx.set_rule("(a) commitments with M in {0,1,2} committed messages: ALL single-bit flips of the serialized commitment-with-proof, commitment point of run A with proof of run B, commitment made under the other suite, remove each m^, append a scalar, 1..=33 trailing octets, truncations => blind_sign must refuse; (b) blind signatures over (L,M) shapes: full message edit sets on signer and committed lists, moving a message between the lists, blinding factor in {None,0,blind+-1}, header, pk, all 640 signature bit flips, other suite, plain interface; (c) blind proofs: message/index edits on both lists, L in {L+-1,0,U+R-1,U+R,2^32,usize::MAX}, moving a disclosure between lists, ph, header, pk, proof bit flips, other suite, plain interface. Thorough: ordered pairs of structural edits. Unsorted/duplicated index lists: crash-only. State = edited statement; non-trivial = real verifier/signer ran and was compared with semantic + reference verdicts.");
+    env.ctx.extra("deviation_bound_completed", json!(bound));
+    par_for(&roots, |_, r| {
+        if !env.want(&r.id) || env.ctx.out_of_time() { return; }
+        let zk = z(r.suite);
+        let k = key(r.suite, "k0");
+        let msgs = distinct_msgs(seed, "c06m", r.l);
+        let cms = distinct_msgs(seed, "c06c", r.m);
+        let det0 = json!({"suite": r.suite.name(), "L": r.l, "M": r.m, "header": r.hn, "messages": hexv(&msgs), "committed": hexv(&cms)});
+        let (cwp, blind) = match zk.commit(Some(&cms)) { O::Ok(x) => x, o => { env.ctx.violation("C06:base-commit-failed", &o.describe(), env.case(&r.id, det0)); return; } };
+        env.ctx.step();
+        match &r.part {
+            Part::Commitment => commitment_part(env, r, &k, &msgs, &cms, &cwp, &det0),
+            Part::BlindSig => {
+                let sig = match zk.blind_sign(&k.sk, &k.pk, Some(&cwp), oh(&r.header), Some(&msgs)) { O::Ok(s) => s, o => { env.ctx.violation("C06:base-blind-sign-failed", &o.describe(), env.case(&r.id, det0)); return; } };
+                env.ctx.step();
+                let base = Bs { suite: r.suite, pk: k.pk.clone(), sig, header: hb(&r.header).to_vec(), msgs: msgs.clone(), cmsgs: cms.clone(), blind, blind_none: false, plain_iface: false };
+                let letters: Vec<Vec<u8>> = vec![vec![], vec![0x01], mccore::fill(seed, "c06-letter", 32)];
+                let mut ed_: Vec<Ed<Bs>> = message_list_edits::<Bs>(&base.msgs, &letters, "msg", |s| &s.msgs, |s, m| Bs { msgs: m, ..s.clone() });
+                ed_.extend(message_list_edits::<Bs>(&base.cmsgs, &letters, "cmsg", |s| &s.cmsgs, |s, m| Bs { cmsgs: m, ..s.clone() }));
+                ed_.extend(header_edits::<Bs>(seed, "header", |s| &s.header, |s, h| Bs { header: h, ..s.clone() }));
+                ed_.push(ed("move last signer message to the front of the committed list".into(), "move-msg-to-committed", true, |s: &Bs| { let mut m = s.msgs.clone(); let x = m.pop()?; let mut c = s.cmsgs.clone(); c.insert(0, x); Some(Bs { msgs: m, cmsgs: c, ..s.clone() }) }));
+                ed_.push(ed("move first committed message to the end of the signer list".into(), "move-committed-to-msg", true, |s: &Bs| { if s.cmsgs.is_empty() { return None; } let mut c = s.cmsgs.clone(); let x = c.remove(0); let mut m = s.msgs.clone(); m.push(x); Some(Bs { msgs: m, cmsgs: c, ..s.clone() }) }));
+                ed_.push(ed("blind := 0".into(), "blind-zero", true, |s: &Bs| { if s.blind == [0u8; 32] { return None; } Some(Bs { blind: [0u8; 32], ..s.clone() }) }));
+                ed_.push(ed("blind := None".into(), "blind-none", false, |s: &Bs| { if s.blind == [0u8; 32] && s.blind_none { return None; } Some(Bs { blind: [0u8; 32], blind_none: true, ..s.clone() }) }));
+                ed_.push(ed("blind += 1".into(), "blind-plus-1", true, |s: &Bs| Some(Bs { blind: sc_add(&s.blind, 1), ..s.clone() })));
+                ed_.push(ed("blind -= 1".into(), "blind-minus-1", false, |s: &Bs| Some(Bs { blind: sc_add(&s.blind, -1), ..s.clone() })));
+                for s2 in suites() { for kk in keys(s2) { let pk = kk.pk.clone(); ed_.push(ed(format!("pk := {}/{}", s2.name(), kk.id), "pk-replace", kk.id == "k1", move |s: &Bs| { if s.pk == pk { return None; } Some(Bs { pk: pk.clone(), ..s.clone() }) })); } }
+                for bit in 0..640 { let cls = if bit < 384 { "sigflip-A" } else { "sigflip-e" }; ed_.push(ed(format!("sig flip bit {bit}"), cls, false, move |s: &Bs| Some(Bs { sig: flip(&s.sig, bit), ..s.clone() }))); }
+                ed_.push(ed("verify under the other ciphersuite".into(), "cross-suite", true, |s: &Bs| Some(Bs { suite: s.suite.other(), ..s.clone() })));
+                ed_.push(ed("verify through the plain interface (signer messages only)".into(), "cross-interface", false, |s: &Bs| { if s.plain_iface { return None; } Some(Bs { plain_iface: true, ..s.clone() }) }));
+                let (_s, tr) = explore(&base, &ed_, bound, &|s| s.key(), &mut |v| {
+                    env.ctx.state(&[r.id.as_bytes(), &v.state.key()]);
+                    let sem = v.state.stmt_eq(&base);
+                    let got = v.state.verify_impl();
+                    let cls = if v.classes.is_empty() { "honest".to_string() } else { v.classes.join("+") };
+                    expect(env, &r.id, &format!("verify_blind_sign after [{}]", v.path.join("; ")), &got, sem, &format!("blind-signature:{}", cls), json!({"base": det0, "edits": v.path}));
+                    let rf = v.state.verify_ref();
+                    if rf.is_ok() != sem { env.machinery(&format!("C06 reference {:?} != semantic {} at {} [{}]", rf, sem, r.id, v.path.join("; "))); }
+                    env.ctx.class(&format!("sig:{}:{}", if sem { "accept" } else { "reject" }, v.classes.first().copied().unwrap_or("honest")));
+                    env.ctx.trace();
+                });
+                env.ctx.add_extra("edit_transitions", tr);
+            }
+            Part::BlindProof { flips } => {
+                let sig = match zk.blind_sign(&k.sk, &k.pk, Some(&cwp), oh(&r.header), Some(&msgs)) { O::Ok(s) => s, o => { env.ctx.violation("C06:base-blind-sign-failed", &o.describe(), env.case(&r.id, det0)); return; } };
+                // disclose the first signer message and the first committed message (when present)
+                let d: Vec<usize> = if r.l > 0 { vec![0] } else { vec![] };
+                let dc: Vec<usize> = if r.m > 0 { vec![0] } else { vec![] };
+                let ph = hb(&r.header).to_vec();
+                let proof = match zk.blind_proof_gen(&k.pk, &sig, oh(&r.header), Some(&ph), Some(&msgs), Some(&cms), Some(&d), Some(&dc), Some(&blind)) { O::Ok(p) => p, o => { env.ctx.violation("C06:base-blind-proof-gen-failed", &o.describe(), env.case(&r.id, det0)); return; } };
+                env.ctx.steps(2);
+                let base = Bp { suite: r.suite, pk: k.pk.clone(), proof, header: hb(&r.header).to_vec(), ph, l: r.l, dmsgs: d.iter().map(|&i| msgs[i].clone()).collect(), dcmsgs: dc.iter().map(|&i| cms[i].clone()).collect(), idx: d.clone(), cidx: dc.clone(), plain_iface: false };
+                let letters: Vec<Vec<u8>> = vec![vec![], vec![0x01], mccore::fill(seed, "c06-letter", 32)];
+                let mut ed_: Vec<Ed<Bp>> = Vec::new();
+                if flips.1 > 0 {
+                    for bit in flips.0..flips.1.min(base.proof.len() * 8) { ed_.push(ed(format!("proof flip bit {bit}"), "proofflip", false, move |s: &Bp| { if bit / 8 >= s.proof.len() { return None; } Some(Bp { proof: flip(&s.proof, bit), ..s.clone() }) })); }
+                } else {
+                    ed_.extend(message_list_edits::<Bp>(&base.dmsgs, &letters, "dmsg", |s| &s.dmsgs, |s, m| Bp { dmsgs: m, ..s.clone() }));
+                    ed_.extend(message_list_edits::<Bp>(&base.dcmsgs, &letters, "dcmsg", |s| &s.dcmsgs, |s, m| Bp { dcmsgs: m, ..s.clone() }));
+                    ed_.extend(header_edits::<Bp>(seed, "header", |s| &s.header, |s, h| Bp { header: h, ..s.clone() }));
+                    ed_.extend(header_edits::<Bp>(seed, "ph", |s| &s.ph, |s, h| Bp { ph: h, ..s.clone() }));
+                    let n = r.l + r.m + 1;
+                    let u = n - d.len() - dc.len();
+                    for lv in [r.l + 1, r.l.wrapping_sub(1), 0, u + d.len() + dc.len() - 1, u + d.len() + dc.len(), 1usize << 32, usize::MAX - 1, usize::MAX] {
+                        ed_.push(ed(format!("L := {lv}"), "L-replace", lv == r.l + 1 || lv == 0, move |s: &Bp| { if s.l == lv { return None; } Some(Bp { l: lv, ..s.clone() }) }));
+                    }
+                    for val in [0usize, 1, r.l.wrapping_sub(1), r.l, r.l + 1, r.m, r.m + 1, 1 << 32, 1 << 63, usize::MAX - 1, usize::MAX] {
+                        ed_.push(ed(format!("idx[0] := {val}"), "idx-replace", val <= 1, move |s: &Bp| { if s.idx.is_empty() || s.idx[0] == val { return None; } let mut i = s.idx.clone(); i[0] = val; Some(Bp { idx: i, ..s.clone() }) }));
+                        ed_.push(ed(format!("cidx[0] := {val}"), "cidx-replace", val <= 1, move |s: &Bp| { if s.cidx.is_empty() || s.cidx[0] == val { return None; } let mut i = s.cidx.clone(); i[0] = val; Some(Bp { cidx: i, ..s.clone() }) }));
+                        for (li, lt) in letters.iter().enumerate().take(2) {
+                            let lt1 = lt.clone(); let lt2 = lt.clone();
+                            ed_.push(ed(format!("add signer disclosure ({val}, letter{li})"), "disclosure-add", false, move |s: &Bp| { if s.idx.contains(&val) || s.idx.len() != s.dmsgs.len() { return None; } let pos = s.idx.iter().position(|&x| x > val).unwrap_or(s.idx.len()); let mut i = s.idx.clone(); let mut m = s.dmsgs.clone(); i.insert(pos, val); m.insert(pos, lt1.clone()); Some(Bp { idx: i, dmsgs: m, ..s.clone() }) }));
+                            ed_.push(ed(format!("add committed disclosure ({val}, letter{li})"), "cdisclosure-add", false, move |s: &Bp| { if s.cidx.contains(&val) || s.cidx.len() != s.dcmsgs.len() { return None; } let pos = s.cidx.iter().position(|&x| x > val).unwrap_or(s.cidx.len()); let mut i = s.cidx.clone(); let mut m = s.dcmsgs.clone(); i.insert(pos, val); m.insert(pos, lt2.clone()); Some(Bp { cidx: i, dcmsgs: m, ..s.clone() }) }));
+                        }
+                    }
+                    ed_.push(ed("drop signer disclosure #0".into(), "disclosure-drop", true, |s: &Bp| { if s.idx.is_empty() || s.dmsgs.is_empty() { return None; } Some(Bp { idx: s.idx[1..].to_vec(), dmsgs: s.dmsgs[1..].to_vec(), ..s.clone() }) }));
+                    ed_.push(ed("drop committed disclosure #0".into(), "cdisclosure-drop", true, |s: &Bp| { if s.cidx.is_empty() || s.dcmsgs.is_empty() { return None; } Some(Bp { cidx: s.cidx[1..].to_vec(), dcmsgs: s.dcmsgs[1..].to_vec(), ..s.clone() }) }));
+                    ed_.push(ed("move last disclosed signer message into the committed list (messages only)".into(), "move-message-only", true, |s: &Bp| { let mut m = s.dmsgs.clone(); let x = m.pop()?; let mut c = s.dcmsgs.clone(); c.insert(0, x); Some(Bp { dmsgs: m, dcmsgs: c, ..s.clone() }) }));
+                    ed_.push(ed("move first disclosed committed message into the signer list (messages only)".into(), "move-message-only", true, |s: &Bp| { if s.dcmsgs.is_empty() { return None; } let mut c = s.dcmsgs.clone(); let x = c.remove(0); let mut m = s.dmsgs.clone(); m.push(x); Some(Bp { dmsgs: m, dcmsgs: c, ..s.clone() }) }));
+                    ed_.push(ed("move signer disclosure #last to the committed side (message and index)".into(), "move-disclosure", true, |s: &Bp| { let mut m = s.dmsgs.clone(); let x = m.pop()?; let mut i = s.idx.clone(); let xi = i.pop()?; if s.cidx.contains(&xi) { return None; } let mut c = s.dcmsgs.clone(); let mut ci = s.cidx.clone(); let pos = ci.iter().position(|&y| y > xi).unwrap_or(ci.len()); c.insert(pos, x); ci.insert(pos, xi); Some(Bp { dmsgs: m, idx: i, dcmsgs: c, cidx: ci, ..s.clone() }) }));
+                    ed_.push(ed("move committed disclosure #0 to the signer side (message and index)".into(), "move-disclosure", true, |s: &Bp| { if s.dcmsgs.is_empty() || s.cidx.is_empty() { return None; } let mut c = s.dcmsgs.clone(); let x = c.remove(0); let mut ci = s.cidx.clone(); let xi = ci.remove(0); if s.idx.contains(&xi) { return None; } let mut m = s.dmsgs.clone(); let mut i = s.idx.clone(); let pos = i.iter().position(|&y| y > xi).unwrap_or(i.len()); m.insert(pos, x); i.insert(pos, xi); Some(Bp { dmsgs: m, idx: i, dcmsgs: c, cidx: ci, ..s.clone() }) }));
+                    for s2 in suites() { for kk in keys(s2) { let pk = kk.pk.clone(); ed_.push(ed(format!("pk := {}/{}", s2.name(), kk.id), "pk-replace", kk.id == "k1", move |s: &Bp| { if s.pk == pk { return None; } Some(Bp { pk: pk.clone(), ..s.clone() }) })); } }
+                    for j in 0..u { ed_.push(ed(format!("remove m^_{j}"), "mhat-remove", true, move |s: &Bp| { let off = 240 + 32 * j; if s.proof.len() < off + 64 { return None; } let mut p = s.proof.clone(); p.drain(off..off + 32); Some(Bp { proof: p, ..s.clone() }) })); }
+                    ed_.push(ed("append fresh scalar before the challenge".into(), "mhat-append", true, |s: &Bp| { if s.proof.len() < 272 { return None; } let at = s.proof.len() - 32; let mut p = s.proof.clone(); p.splice(at..at, refbbs::sc_bytes(&refbbs::random_scalar_from(b"c06", b"fresh", 3)).to_vec()); Some(Bp { proof: p, ..s.clone() }) }));
+                    ed_.push(ed("verify under the other ciphersuite".into(), "cross-suite", true, |s: &Bp| Some(Bp { suite: s.suite.other(), ..s.clone() })));
+                    ed_.push(ed("verify through the plain interface".into(), "cross-interface", false, |s: &Bp| { if s.plain_iface { return None; } Some(Bp { plain_iface: true, ..s.clone() }) }));
+                }
+                let b = if flips.1 > 0 { 1 } else { bound };
+                let (_s, tr) = explore(&base, &ed_, b, &|s| s.key(), &mut |v| {
+                    env.ctx.state(&[r.id.as_bytes(), &v.state.key()]);
+                    let got = v.state.verify_impl();
+                    let cls = if v.classes.is_empty() { "honest".to_string() } else { v.classes.join("+") };
+                    let det = json!({"base": det0, "edits": v.path, "L": v.state.l.to_string(), "idx": format!("{:?}", v.state.idx), "cidx": format!("{:?}", v.state.cidx), "dmsgs": hexv(&v.state.dmsgs), "dcmsgs": hexv(&v.state.dcmsgs)});
+                    if !v.state.in_contract() {
+                        env.ctx.step();
+                        if let O::Panic(p) = &got { env.ctx.violation(&format!("C06:out-of-contract:{}:panic", cls), &format!("verifier panicked: {}", p), env.case(&r.id, det)); }
+                        env.ctx.class("out-of-contract (crash-only)");
+                        env.ctx.trace();
+                        return;
+                    }
+                    let sem = *v.state == base;
+                    expect(env, &r.id, &format!("blind_proof_verify after [{}]", v.path.join("; ")), &got, sem, &format!("blind-proof:{}", cls), det);
+                    let skip_ref = !env.thorough() && cls == "proofflip" && !got.is_ok();
+                    let rf = if skip_ref { Err("skipped".into()) } else { v.state.verify_ref() };
+                    if rf.is_ok() != sem { env.machinery(&format!("C06 reference {:?} != semantic {} at {} [{}]", rf, sem, r.id, v.path.join("; "))); }
+                    env.ctx.class(&format!("proof:{}:{}", if sem { "accept" } else { "reject" }, v.classes.first().copied().unwrap_or("honest")));
+                    env.ctx.trace();
+                    if v.path.len() == 1 && v.path[0].starts_with("L :=") { env.ctx.sample(json!({"root": r.id, "edits": v.path, "verdict": got.kind()})); }
+                });
+                env.ctx.add_extra("edit_transitions", tr);
+            }
+        }
+    });
+}
+
+fn commitment_part(env: &Env, r: &Root, k: &Key, msgs: &[Vec<u8>], cms: &[Vec<u8>], cwp: &[u8], det0: &serde_json::Value) {
+    let zk = z(r.suite);
+    let seed = env.ctx.seed;
+    let mut cands: Vec<(String, &'static str, Vec<u8>)> = Vec::new();
+    for bit in 0..cwp.len() * 8 { cands.push((format!("commitment flip bit {bit}"), if bit < 384 { "commitment-flip-C" } else { "commitment-flip-proof" }, flip(cwp, bit))); }
+    // commitment point of this run with the proof of another run (other messages)
+    let other_msgs = distinct_msgs(seed, "c06-other", r.m);
+    if let O::Ok((c2, _)) = zk.commit(Some(&other_msgs)) {
+        let mut x = cwp[..48].to_vec(); x.extend_from_slice(&c2[48..]);
+        cands.push(("commitment of run A with proof of run B".into(), "commitment-cross-run", x));
+        let mut y = c2[..48].to_vec(); y.extend_from_slice(&cwp[48..]);
+        cands.push(("commitment of run B with proof of run A".into(), "commitment-cross-run", y));
+    }
+    if let O::Ok((c3, _)) = z(r.suite.other()).commit(Some(cms)) { cands.push(("commitment made under the other ciphersuite".into(), "commitment-cross-suite", c3)); }
+    for j in 0..r.m { let mut x = cwp.to_vec(); x.drain(80 + 32 * j..112 + 32 * j); cands.push((format!("remove m^_{j}"), "commitment-mhat-remove", x)); }
+    for (nm, sc) in [("zero", vec![0u8; 32]), ("fresh", refbbs::sc_bytes(&refbbs::random_scalar_from(b"c06", b"c", 1)).to_vec())] { let mut x = cwp.to_vec(); let at = x.len() - 32; x.splice(at..at, sc); cands.push((format!("append {nm} scalar before the challenge"), "commitment-mhat-append", x)); }
+    for t in 1..=33usize { let mut x = cwp.to_vec(); x.extend(vec![0u8; t]); cands.push((format!("{t} trailing zero octets"), "commitment-trailing", x)); }
+    for t in [1usize, 31, 32, 33, 64] { if cwp.len() > t { cands.push((format!("truncate by {t} octets"), "commitment-truncate", cwp[..cwp.len() - t].to_vec())); } }
+    // honest first
+    let ok = zk.blind_sign(&k.sk, &k.pk, Some(cwp), oh(&r.header), Some(msgs));
+    env.ctx.state(&[r.id.as_bytes(), b"honest"]);
+    expect(env, &r.id, "blind_sign(honest commitment)", &ok, true, "commitment:honest", det0.clone());
+    env.ctx.trace();
+    for (name, cls, bytes) in cands {
+        if bytes == cwp { continue; }
+        if !env.ctx.state(&[r.id.as_bytes(), &bytes]) { continue; }
+        let got = zk.blind_sign(&k.sk, &k.pk, Some(&bytes), oh(&r.header), Some(msgs));
+        expect(env, &r.id, &format!("blind_sign after [{}]", name), &got, false, &format!("commitment:{}", cls), json!({"base": det0, "edit": name, "commitment_with_proof": hex::encode(&bytes)}));
+        let rf = refbbs::deserialize_and_validate_commit(r.suite, &bytes);
+        if rf.is_ok() { env.machinery(&format!("C06 reference accepted damaged commitment at {} [{}]", r.id, name)); }
+        env.ctx.class(&format!("refuse:{}", cls));
+        env.ctx.trace();
+        if name.starts_with("commitment of run") { env.ctx.sample(json!({"root": r.id, "edit": name, "verdict": got.kind()})); }
+    }
+}
